@@ -12,7 +12,7 @@ twin-encoded doubles):
 Exact-arithmetic harnesses (engine E1, symbolic ints/reals, path forking):
   H1x/<Site>, H4x/PtTempo   step count with CONCRETE non-zero binary-exact (start, dt) and a symbolic integer target e:
                      end = start + e*dt exactly  ->  number of steps == e (catches a dropped / mis-signed start offset)
-  H2/<api>           compute_dynamics, compute_dynamics_with_field, compute_gradient_and_dynamics:
+  H2/<api>           compute_dynamics, compute_dynamics_with_field, compute_gradient_and_dynamics, state_gradient:
                      times vs states bookkeeping, symbolic num_steps <= 4, record_all both ways
   H2/Tempo.compute, H2/MeanFieldTempo.compute, H2/PtTebd.compute   loop + label bookkeeping with
                      a counting back-end stub
@@ -498,10 +498,10 @@ class LabelsComputeDynamics(_ApiLabels):
         return obs
 
 
-def _identity_pt(inp, N, d=2):
+def _identity_pt(inp, N, d=2, dt=None):
     """bond-dimension-1 process tensor that does nothing (the gradient code needs a real MPO tensor)"""
     D = d * d
-    pt = oqupy.process_tensor.SimpleProcessTensor(hilbert_space_dimension=d, dt=None)
+    pt = oqupy.process_tensor.SimpleProcessTensor(hilbert_space_dimension=d, dt=dt)
     for k in range(N):
         pt.set_mpo_tensor(k, inp.const(np.identity(D).reshape(1, 1, D, D)))
     for k in range(N + 1):
@@ -539,6 +539,54 @@ class LabelsGradient(_ApiLabels):
         for j, k in enumerate(sel):
             if j < len(states):
                 obs.append(Ob.eq("state %d is the state of step %d" % (j, k), states[j], exp[k], key="state_alignment"))
+        return obs
+
+
+class _GradSystem(lib.FakeParamSystem):
+    """one control parameter; the derivative of either half-step propagator is a fixed matrix (values irrelevant here)"""
+
+    def __init__(self, inp, d, P1, P2):
+        super().__init__(d, P1, P2)
+        self._dP = [inp.const(np.identity(d * d))]
+
+    def get_propagator_derivatives(self, dt, parameters):
+        return lambda step: (self._dP, self._dP)
+
+
+class LabelsStateGradient(_ApiLabels):
+    """entry point state_gradient: num_steps and dt come from the process tensor, start_time is forwarded"""
+    api = "state_gradient"
+    functions = ("oqupy/gradient.py:state_gradient", "oqupy/gradient.py:compute_gradient_and_dynamics", "oqupy/gradient.py:_chain_rule",
+                 "oqupy/dynamics.py:Dynamics.add")
+    env = dict(_e1_env("oqupy.system_dynamics", "oqupy.gradient", "oqupy.dynamics", "oqupy.util", "oqupy.control",
+                       np_proxy=("oqupy.control", "oqupy.gradient")))
+    real_env = {"oqupy.control.print": lambda *a, **k: None}
+    stubs = _ApiLabels.stubs + ("ParameterizedSystem.get_propagator_derivatives -> fixed matrices (one parameter)",)
+
+    def __init__(self, nmax=4):
+        super().__init__(True, nmax)
+        self.id = "H2/state_gradient"
+        self.bounds = {"num_steps (= len(process_tensor))": [1, nmax], "d": 2}
+
+    @guard_library_exceptions
+    def run(self, inp):
+        ns, start, dt = self._inputs(inp, lo=1)
+        cs, P1, P2 = _scaled_props(inp, self.NMAX, 2)
+        rho0 = inp.arr("r", (2, 2))
+        target = inp.arr("g", (2, 2))
+        pt = _identity_pt(inp, ns, dt=dt)
+        res = gradient_mod.state_gradient(_GradSystem(inp, 2, P1, P2), rho0, target, [pt], np.zeros((2 * ns, 1)),
+                                          start_time=start, progress_type="silent")
+        dyn = res["dynamics"]
+        times, states = list(dyn._times), list(dyn._states)
+        obs = _times_obs(times, start, dt, ns, True)
+        obs.append(Ob.holds("len(times) == len(states)", len(times) == len(states), key="len"))
+        acc = inp.one()
+        for k in range(min(ns + 1, len(states))):
+            obs.append(Ob.eq("state %d is the state of step %d" % (k, k), states[k], _scale(rho0, acc), key="state_alignment"))
+            if k < ns:
+                acc = acc * cs[k]
+        obs.append(Ob.eq("final_state is the last state", res["final_state"], states[-1], key="state_alignment"))
         return obs
 
 
@@ -837,7 +885,7 @@ def e1_cases(tier):
     cs = []
     for ra in (True, False):
         cs += [LabelsComputeDynamics(ra, n), LabelsWithField(ra, n), LabelsGradient(ra, n)]
-    cs += [LabelsWithField(True, zero_steps=True)]
+    cs += [LabelsWithField(True, zero_steps=True), LabelsStateGradient(n)]
     cs += [StepsExact("Tempo"), StepsExact("MeanFieldTempo"), StepsExact("PtTempo")]
     if tier == "thorough":
         cs += [ComputeLoop("Tempo", 5, Fraction(1, 2)), ComputeLoop("MeanFieldTempo", 5, Fraction(1, 2))]
